@@ -136,6 +136,8 @@ func LibDo(ctx erpc.CallCtx, a *LibArg) (interface{}, *erpc.Status) {
 		panic(errors.New("boom " + a.Val))
 	case "panic-st":
 		panic(mkStatus(a))
+	case "panic-st-ok":
+		panic(erpc.NewStatus(erpc.CodeOK, a.Msg, a.Cause))
 	case "slow":
 		if e != nil {
 			close(e)
